@@ -1,6 +1,6 @@
 SPECIFICATION Spec
 CONSTANTS
-  NBuf = 5
+  NBuf = 6
   NC = 1
   Batch = 3
   NP = 2
@@ -9,7 +9,7 @@ CONSTANTS
   QSlow = 2
   QInt = 2
   QEg = 2
-  MaxPkts = 5
+  MaxPkts = 6
   MaxBfd = 0
   StopMode = "quiet"
   BfdSerErr = FALSE
